@@ -891,7 +891,9 @@ def check(run):
         h["new_versions"] += made
         h["refused"] += sum(1 for s in r.get("steps", []) if not s["ok"])
         nops += len(c["ops"])
-        run.violations += oracle_case(c, r)
+        for v in oracle_case(c, r):
+            v.origin = (cases, c)
+            run.violations.append(v)
     run.coverage["distribution"] = hist
     run.coverage["operations"] = nops
     run.coverage["types_covered"] = sorted({"%s/%s" % (c["ver"], c["ty"]) for c in cases if c["kind"] == "versionable"})
@@ -902,10 +904,12 @@ def check(run):
         extra = search_cases(run)
         eimpl = common.run_impl("c05_impl", extra)
         for c, r in zip(extra, eimpl):
-            run.violations += oracle_case(c, r)
+            for v in oracle_case(c, r):
+                v.origin = (extra, c)
+                run.violations.append(v)
         run.coverage["search_cases"] = len(extra)
     run.coverage["failing_cases_found"] = len(run.violations)
-    run.violations[:] = [minimise(v) for v in first_per_kind(run.violations)]
+    run.violations[:] = [reproducible(minimise(v), v) for v in first_per_kind(run.violations)]
     run.coverage["trusted_base"] += [
         "coq/Model/Versioning.v (+ Model/Timestamp.v, Model/Calendar.v): hand-written model of stix2/versioning.py, object markings and the utils they call (correspondence-checked each run)",
         "translators/tr_versioning.py: live STIX_UNMOD_PROPERTIES, _VERSIONING_PROPERTIES, registry and _id_contributing_properties of /repo; frozen tables from /verif/spec/stix_tables.json",
@@ -952,6 +956,46 @@ def minimise(v):
     return v
 
 
+def kind_of(v):
+    return str(v.replay.get("check")).split(" (")[0].split(": ")[0].split(" '")[0]
+
+
+def shows(case, before, kind):
+    """does the failure show in a fresh interpreter that first handles `before`, then `case`?"""
+    try:
+        res = common.run_impl("c05_impl", list(before) + [case], procs=1)
+    except RuntimeError:
+        return False
+    return any(kind_of(x) == kind for x in oracle_case(case, res[-1]))
+
+
+def reproducible(v, original):
+    """A replay runs in a fresh interpreter.  If the (minimised) failure does not show there, fall back to the whole
+    chain; if it still does not (it depended on what the same worker process had handled before, e.g. a verdict
+    cached for a type), the replay gets the chains that preceded it in that process: those of the same type first."""
+    kind = kind_of(v)
+    clean = lambda c: {k: x for k, x in c.items() if k != "_state_before"}
+    if shows(clean(v.replay["case"]), [], kind):
+        return v
+    v = original
+    case = clean(v.replay["case"])
+    v.replay["case"] = case
+    if shows(case, [], kind) or not hasattr(original, "origin"):
+        return v
+    allc, c0 = original.origin
+    idx = next((i for i, c in enumerate(allc) if c is c0), None)
+    if idx is None:
+        return v
+    procs = min(common.NCPU, max(1, len(allc) // 50))       # how run_impl dealt the cases out
+    before = [allc[j] for j in range(idx % procs, idx, procs)]
+    for pre in ([c for c in before if c.get("ty") == c0.get("ty")], before):
+        if pre and shows(case, pre, kind):
+            v.replay["before"] = pre
+            v.replay["note"] = "order-dependent: the %d chains in `before` prepare the interpreter state" % len(pre)
+            return v
+    return v
+
+
 def first_per_kind(violations):
     """One replay per kind of failure is enough (the first found); the count of the others goes to the evidence."""
     seen, out = set(), []
@@ -967,7 +1011,7 @@ def replay(payload):
     r = payload["replay"]
     case = r["case"]
     case.pop("_state_before", None)
-    res = common.run_impl("c05_impl", [case], procs=1)[0]
+    res = common.run_impl("c05_impl", list(r.get("before", [])) + [case], procs=1)[-1]
     print("replay %s %s %s: %s" % (case["ver"], case["carrier"], case.get("ty"), res.get("line", res)[:2000]))
     v = oracle_case(case, res)
     if v:
